@@ -2375,3 +2375,125 @@ func handshakeFlag(owner *ssa.Alloc) bool {
 	}
 	return reads > 0
 }
+
+// ruleEntryAdopted (R8h.adopt): a subscription entry that was made successfully owns an open
+// upstream connection and two goroutines of the queryer; the only things that ever end them are
+// the teardown of its Listen goroutine and the Clean/CleanAll of the dictionary it is kept in.
+// So on every path from the successful return of newSubscriptionEntry to a return of the handler,
+// or back to the next message, the entry is put into a map AND its Listen is started. A return
+// slipped in between ("this message is malformed after all") leaks the connection for good.
+func ruleEntryAdopted(r *Run) {
+	const rule = "R8h.adopt"
+	mk := r.Anchor(rule, "pebbles.(*Gateway).newSubscriptionEntry")
+	listen := r.Anchor(rule, "pebbles.(*subscriptionEntry).Listen")
+	if mk == nil || listen == nil {
+		return
+	}
+	n := 0
+	for _, e := range r.P.CG.In[origin(mk)] {
+		call, ok := e.Site.(*ssa.Call)
+		if !ok || e.Caller == nil || !inModule(e.Caller) {
+			continue
+		}
+		n++
+		var entry, errv ssa.Value
+		if refs := call.Referrers(); refs != nil {
+			for _, u := range *refs {
+				if ex, ok := u.(*ssa.Extract); ok {
+					if ex.Index == 0 {
+						entry = ex
+					} else {
+						errv = ex
+					}
+				}
+			}
+		}
+		site := r.P.pos(call.Pos())
+		if entry == nil {
+			r.Check(false, rule, fnName(e.Caller), "entry made", site, "", "the entry returned by newSubscriptionEntry is dropped: nothing can ever close its upstream connection")
+			continue
+		}
+		// the block where the error has been found nil
+		start, startIdx := call.Block(), 0
+		for i, ins := range call.Block().Instrs {
+			if ins == ssa.Instruction(call) {
+				startIdx = i + 1
+			}
+		}
+		if errv != nil {
+			if refs := errv.Referrers(); refs != nil {
+				for _, u := range *refs {
+					b, ok := u.(*ssa.BinOp)
+					if !ok || (b.Op != token.NEQ && b.Op != token.EQL) {
+						continue
+					}
+					if br := b.Referrers(); br != nil {
+						for _, w := range *br {
+							if iff, ok := w.(*ssa.If); ok && len(iff.Block().Succs) == 2 {
+								if b.Op == token.NEQ {
+									start, startIdx = iff.Block().Succs[1], 0
+								} else {
+									start, startIdx = iff.Block().Succs[0], 0
+								}
+							}
+						}
+					}
+				}
+			}
+		}
+		kept := func(i ssa.Instruction) bool {
+			mu, ok := i.(*ssa.MapUpdate)
+			return ok && mu.Value == entry
+		}
+		started := func(i ssa.Instruction) bool {
+			g, ok := i.(*ssa.Go)
+			if !ok {
+				return false
+			}
+			c := g.Common()
+			return c.StaticCallee() != nil && origin(c.StaticCallee()) == origin(listen) && len(c.Args) > 0 && c.Args[0] == entry
+		}
+		for _, what := range []struct {
+			name string
+			pred func(ssa.Instruction) bool
+			bad  string
+		}{
+			{"kept in the dictionary", kept, "is not put into the dictionary of running subscriptions: stop, terminate and disconnect cannot reach it"},
+			{"Listen started", started, "is not listened to: nothing ever sends on its queryerCloseCh, the upstream connection and the queryer's goroutines stay for good"},
+		} {
+			okAll, where := true, ""
+			seen := map[*ssa.BasicBlock]bool{}
+			var visit func(b *ssa.BasicBlock, from int)
+			visit = func(b *ssa.BasicBlock, from int) {
+				if !okAll {
+					return
+				}
+				for i := from; i < len(b.Instrs); i++ {
+					ins := b.Instrs[i]
+					if what.pred(ins) {
+						return
+					}
+					if _, isRet := ins.(*ssa.Return); isRet {
+						okAll, where = false, "the return at "+r.P.pos(retPos(ins.(*ssa.Return)))
+						return
+					}
+				}
+				for _, s := range b.Succs {
+					if s == call.Block() {
+						okAll, where = false, "the way back to the next message from "+r.P.pos(b.Instrs[len(b.Instrs)-1].Pos())
+						return
+					}
+					if !seen[s] {
+						seen[s] = true
+						visit(s, 0)
+					}
+				}
+			}
+			visit(start, startIdx)
+			r.Check(okAll, rule, fnName(e.Caller), "entry made: "+what.name, site,
+				"on every path from the successful newSubscriptionEntry to a return or to the next message the entry is "+what.name,
+				"on the path to "+where+" the entry made here "+what.bad)
+		}
+	}
+	r.Check(n >= 1, rule, "", "call sites of newSubscriptionEntry", "-", strconv.Itoa(n)+" call site(s) judged", "no call site of newSubscriptionEntry found in the module")
+}
